@@ -74,6 +74,23 @@ def run(tier):
     tree = rt.prepare(["asan", "opt"])
     en = enabled_methods(tree.gendir())
     exe = tree.program("opt", "venum.c", name="venum-opt", wrap=False)
+    # a consumer of the generated header, optimised: attributes in <crypt.h> act in the caller
+    hacc = common.Acc()
+    for lvl in ("-O2", "-O3"):
+        hexe = tree.program("opt", "vhdr.c", name="vhdr-opt" + lvl, wrap=False, extra_cflags=lvl)
+        hp = subprocess.run([hexe], stdout=subprocess.PIPE, stderr=subprocess.PIPE, text=True, timeout=300)
+        for ln in hp.stdout.splitlines():
+            if ln.startswith("VIOL "):
+                t = ln.split(" ", 2)
+                hacc.violation("%s/%s" % (PID, t[1]), "a program compiled %s against the generated <crypt.h>: %s" % (lvl, t[2]),
+                               {"cmd": hexe})
+            elif ln.startswith("STAT "):
+                hacc.count("evaluations", json.loads(ln[5:])["evaluations"])
+                hacc.count("header_consumer_checks", json.loads(ln[5:])["evaluations"])
+                hacc.cls(("header-consumer", lvl))
+        if hp.returncode not in (0, 1):
+            hacc.violation(PID + "/header-consumer/died", "rc=%s %s" % (hp.returncode, hp.stderr[-300:]), {"cmd": hexe})
+    run_.merge(hacc)
     nsh = 16
     len4 = "all" if tier == "thorough" else str(2000000 // nsh)
     acc = common.Acc()
